@@ -651,6 +651,13 @@ def corr_morgan_smiles(ck):
               good, 'correspondence', log or repr([meta[i] for i in failing[:8]] + conflicts[:3]))
     ck.extra['morgan_smiles_cases'] = len(cases)
     if not good:
+        # directed search: the independent oracle on the molecules of this correspondence, every pair of radii
+        for tag, m in pool:
+            if tag.startswith(('hand:', 'corpus:')) and not tag.endswith(':renumbered'):
+                try:
+                    search_morgan_smiles(ck, tag, tag.split(':', 1)[1], m, rng, radii=MS_RADII)
+                except Exception:
+                    ck.count('ms:directed search skipped (substructure not writable)')
         ck.unchecked('correspondence MorganSmiles model vs morgan_hash_smiles / morgan_smiles_hash', log[-1500:], [repr(meta[i]) for i in failing[:20]] + [repr(c) for c in conflicts[:5]])
     return good
 
@@ -1381,6 +1388,11 @@ def search_molecule_(ck, tag, smi, m, rng, budget_params):
     ck.case(('fixed linear_hash_smiles', tag, lo, hi, nbp))
     if fixed_lhs(m, lo, hi, nbp) != fixed_lhs(m3, lo, hi, nbp):
         ck.extra.setdefault('suggested_fix_failures', []).append(tag)
+    # (6b) morgan_hash_smiles / morgan_smiles_hash against an independent construction, min_radius >= 2 included: the key is the
+    #      recursive neighbourhood identifier of atom a after r rounds, the value the SMILES of the substructure on the atoms found
+    #      by a breadth-first search of depth r from a (own BFS; the canonical string of that atom set is taken from chython)
+    if smi and len(m._atoms) <= 40:
+        n_eval += search_morgan_smiles(ck, tag, smi, m, rng)
     if smi and len(m._atoms) <= 40:
         a = {k: sorted(v) for k, v in m.morgan_hash_smiles(1, 3).items()}
         m2 = renumbered(m, rng)
@@ -1406,6 +1418,74 @@ KNOWN_MORGAN_KEY = 'morgan_hash_smiles-numbering:' + KNOWN_MORGAN_SMILES
 
 def strip_stereo(s):
     return s.replace('@', '').replace('/', '').replace('\\', '')
+
+
+MS_RADII = [(2, 2), (2, 3), (3, 3), (1, 2), (2, 4), (3, 4), (1, 3)]
+
+
+def bfs_ball(adj, a, r):
+    seen = {a}
+    frontier = [a]
+    for _ in range(r):
+        nxt = []
+        for x in frontier:
+            for y in adj[x]:
+                if y not in seen:
+                    seen.add(y)
+                    nxt.append(y)
+        frontier = nxt
+    return seen
+
+
+def search_morgan_smiles(ck, tag, smi, m, rng, radii=None):
+    """expected[identifier of a after r rounds] = {SMILES of the ball of radius r around a}, r = min_radius-1 .. max_radius-1"""
+    adj = {n: list(nb) for n, nb in m._bonds.items()}
+    ids = my_identifiers(m)
+    memo = {}
+
+    def ident(a, r):
+        if r == 0:
+            return ids[a]
+        if (a, r) not in memo:
+            env = sorted((int(bd), ident(x, r - 1)) for x, bd in m._bonds[a].items())
+            memo[(a, r)] = hash((ident(a, r - 1),) + tuple(v for pr in env for v in pr))
+        return memo[(a, r)]
+
+    n_eval = 0
+    for lo, hi in (radii or rng.sample(MS_RADII, 2 if len(adj) <= 20 else 1)):
+        exp = {}
+        cache = {}
+        try:
+            for r in range(lo - 1, hi):
+                for a in adj:
+                    ball = frozenset(bfs_ball(adj, a, r))
+                    if ball not in cache:
+                        cache[ball] = format(m.substructure(ball), 'A')
+                    exp.setdefault(ident(a, r), set()).add(cache[ball])
+        except Exception:       # the oracle's own substructure cannot be built / written: no verdict
+            ck.count('search:morgan_hash_smiles oracle skipped')
+            continue
+        exp = {k: sorted(v) for k, v in exp.items()}
+        got = m.morgan_hash_smiles(lo, hi)
+        n_eval += 1
+        ck.case(('morgan_hash_smiles oracle', tag, lo, hi), nontrivial=lo >= 2)
+        ck.count('search:morgan_hash_smiles oracle min_radius>=2' if lo >= 2 else 'search:morgan_hash_smiles oracle min_radius=1')
+        rp = f"from chython import smiles; m = smiles({smi!r}); print(m.morgan_hash_smiles({lo}, {hi})); print(m.morgan_smiles_hash({lo}, {hi}))"
+        if {k: sorted(v) for k, v in got.items()} != exp:
+            bad = [k for k in exp if sorted(got.get(k, ())) != exp[k]][:2]
+            cx(ck, f'morgan_hash_smiles-environment:{tag}:{lo}:{hi}', 'morgan_hash_smiles attaches to a radius-r identifier a SMILES that is not the radius-r environment of its atom',
+               {'molecule': tag, 'min_radius': lo, 'max_radius': hi}, {k: got.get(k) for k in bad}, {k: exp[k] for k in bad},
+               'recursive neighbourhood hasher + breadth-first ball of the same radius', replay_py=rp)
+            continue
+        tr = {}
+        for k, v in exp.items():
+            for s_ in v:
+                tr.setdefault(s_, set()).add(k)
+        got_t = m.morgan_smiles_hash(lo, hi)
+        if {k: set(v) for k, v in got_t.items()} != tr or any(len(v) != len(set(v)) for v in got_t.values()):
+            cx(ck, f'morgan_smiles_hash-transposed:{tag}:{lo}:{hi}', 'morgan_smiles_hash is not the transposed dictionary of the radius-r environments',
+               {'molecule': tag, 'min_radius': lo, 'max_radius': hi}, len(got_t), len(tr), 'transposition of the oracle dictionary', replay_py=rp)
+    return n_eval
 
 
 def known_witness(ck):
